@@ -300,7 +300,7 @@ def build_disk(ctx, st, world, faults):
             expect_class = "may_raise"
         paths = []
         for name, b in files:
-            p = "sim:/data/" + name
+            p = "/simfs/data/" + name
             st.fs.write_bytes(p, b)
             paths.append(p)
         st.stored.append({"spec": rec, "paths": paths, "exp": exp, "class": expect_class,
